@@ -69,6 +69,12 @@ pub fn check(ctx: &mut Ctx) {
                     ctx.case("cmp-model", &key, "pass", serde_json::json!({"a": format!("{:?}", a), "b": format!("{:?}", b), "cmp": format!("{:?}", o)}));
                 }
             }
+            // P-level: integers compare exactly, whatever their magnitude
+            if let (Value::Int(x), Value::Int(y)) = (a, b) {
+                if o != x.cmp(y) {
+                    ctx.case("order-laws", &key, "viol", serde_json::json!({"class": "", "what": "two integers do not compare by their exact value", "a": format!("{:?}", a), "b": format!("{:?}", b)}));
+                }
+            }
             // P-level laws on the stated domain
             if is_scalar_in_domain(a) && is_scalar_in_domain(b) {
                 let mut bad: Option<String> = None;
